@@ -235,13 +235,15 @@ void run_residual(const Value& plan, Result& r)
                 r.probe("columns_probed");
                 // expected column of A_ref
                 for (int m = 0; m < ref.A.n; m++) {
-                    double a = 0;
+                    double a = 0, aa = 0;
                     const model::SparseRow& row = ref.A.rows[m];
                     for (size_t q = 0; q < row.col.size(); q++)
-                        if (row.col[q] == km)
-                            a = row.val[q];
+                        if (row.col[q] == km) {
+                            a  = row.val[q];
+                            aa = row.aval[q];
+                        }
                     double got = -col[ref.A.to_grid[m]];
-                    if (std::fabs(got - a) > 4 * MB * EPS * std::fabs(a)) {
+                    if (std::fabs(got - a) > 4 * MB * EPS * aa) {
                         const char* what = ref.A.dirichlet[m] ? "dirichlet_row_not_identity"
                                            : (a == 0.0 ? "entry_outside_stencil" : "stencil_entry_differs");
                         r.fail(fmt("C03.%s:%s%s", what, variant == 0 ? "give" : "take", variant == 0 ? tag.c_str() : ""),
